@@ -267,6 +267,9 @@ def script(name, g, lock=1):
     if name == 'XS':
         x, s = a(), a()
         return 'X:x%d:%d U:x%d S:s%d:%d U:s%d' % (x, lock, x, s, lock, s)
+    if name == 'XX':
+        x, y = a(), a()
+        return 'X:x%d:%d U:x%d X:x%d:%d U:x%d' % (x, lock, x, y, lock, y)
     if name == 'SX':
         s, x = a(), a()
         return 'S:s%d:%d U:s%d X:x%d:%d U:x%d' % (s, lock, s, x, lock, x)
